@@ -132,6 +132,11 @@ void Ctx::fail(const std::string& cls, const std::string& sig, const std::string
   throw v;
 }
 
+bool Ctx::knownOrFail(const std::string& prop, const std::string& cls, const std::string& sig, const std::string& detail) {
+  if (isKnownFinding(prop, sig)) { ++knownHits[sig]; ev("known:" + sig); return true; }
+  fail(cls, sig, detail);
+}
+
 std::vector<Op> Harness::simplify(const Op& o) const {
   std::vector<Op> r;
   auto tryl = [&](long Op::*m) {
